@@ -162,7 +162,7 @@ func (r *Result) Finish(t *Tables, evidenceDir string) int {
 				o.Status = Known
 				o.Detail = o.Detail + " [known finding: " + k.What + "]"
 				usedKnown[o.Key] = true
-			} else if rv, ok := reviewed[o.Key]; ok {
+			} else if rv, ok := lookupReviewed(reviewed, t.Reviewed, o.Key); ok {
 				o.Status = Assumed
 				o.Detail = o.Detail + " [reviewed invariant: " + rv.Assume + " — " + rv.Reason + "]"
 			}
@@ -206,6 +206,11 @@ func (r *Result) Finish(t *Tables, evidenceDir string) int {
 		_ = os.Remove(violPath)
 	}
 
+	if os.Getenv("LALCHECK_ALLOBS") != "" {
+		for _, o := range r.Obs {
+			fmt.Printf("OB %s %s %s :: %s\n", o.Status, o.Key, o.Pos, o.Detail)
+		}
+	}
 	// samples: a few of each status, preferring non-trivial ones
 	var samples []interface{}
 	perRule := map[string]int{}
@@ -292,4 +297,20 @@ func (r *Result) Finish(t *Tables, evidenceDir string) int {
 		return 1
 	}
 	return 0
+}
+
+// lookupReviewed matches an obligation key against the reviewed-invariant table: exactly, or
+// by an entry "<rule>|<function>|*" that covers every obligation of that rule inside that one
+// named function (never wider than one function).
+func lookupReviewed(exact map[string]Reviewed, all []Reviewed, key string) (Reviewed, bool) {
+	if rv, ok := exact[key]; ok {
+		return rv, true
+	}
+	for _, rv := range all {
+		// keys of requirements that fail at a caller ("...@caller") always need an exact entry
+		if strings.HasSuffix(rv.Key, "|*") && strings.Count(rv.Key, "|") == 2 && !strings.Contains(key, "@") && strings.HasPrefix(key, strings.TrimSuffix(rv.Key, "*")) {
+			return rv, true
+		}
+	}
+	return Reviewed{}, false
 }
